@@ -816,6 +816,20 @@ def jsx_free_corpus():
     return out
 
 
+RT_IMPORTS = ["import { defineComponent, h } from 'vue';", "import { h } from 'vue';", "import { defineComponent } from './local';", "import { defineComponent as dc, h } from 'vue';\nconst defineComponent = (x: any, y?: any) => x;",
+              "import * as Vue from 'vue';\nimport { defineComponent } from 'vue';"]
+RT_SHADOWS = ["export function register(defineComponent: (setup: Function, extra?: object) => unknown) { const Button = CALL; return Button; }",
+              "function outer() { function defineComponent(a: any) { return a; } const Inner = CALL; return Inner; }",
+              "const make = () => { const defineComponent = (a: any) => a; return CALL; };",
+              "class K { defineComponent(a: any) { return a; } m() { const defineComponent = this.defineComponent; return CALL; } }",
+              "const viaMember = Vue2.CALL;", "const viaThis = { defineComponent(a: any) { return a; }, m() { return this.CALL; } };",
+              "for (const defineComponent of [(a: any) => a]) { CALL; }", "try { throw 0; } catch (defineComponent) { const C = CALL; }",
+              "const top = CALL;"]
+RT_CALLS = ["defineComponent((props: { label: string }) => () => h('button', props.label))",
+            "defineComponent((props: { a?: number }, ctx: SetupContext<{ (e: 'x'): void }>) => {})",
+            "defineComponent(function Named(props: { b: boolean } = { b: true }) {})"]
+
+
 def c09_cases(tier, seed):
     r = gen.Rng(seed)
     run = corpus_cases("C09")
@@ -841,12 +855,20 @@ def c09_cases(tier, seed):
             parts.append(sur % el)
         hist.update(g.used)
         run.append({"id": "s%d" % i, "src": "\n".join(parts) + "\n", "tsx": ts, "opts": std_opts(r)})
+    # resolveType on: calls that merely LOOK like Vue's defineComponent (shadowed, member, aliased, other module) must stay as written
+    n_rt = 0
+    for imp in RT_IMPORTS:
+        for sh in RT_SHADOWS:
+            for call in RT_CALLS:
+                n_rt += 1
+                src = imp + "\n" + sh.replace("CALL", call) + "\n"
+                run.append({"id": "rt%d" % n_rt, "src": src, "tsx": True, "opts": {"resolveType": True, "optimize": bool(n_rt % 2)}})
     # generated JSX-free modules
     for i in range(budget(tier, 300, 8000)):
         g = gen.Gen(r, {"jsx_in_expr": 0})
         parts = [gen.PRELUDE] + [r.pick(SURROUND) % g.expr(0, allow_jsx=False) for _ in range(1 + r.below(4))]
         run.append({"id": "f%d" % i, "src": "\n".join(parts) + "\n", "tsx": False, "opts": std_opts(r)})
-    return [], run, {"rule": "JSX-free corpus of %d real files on disk (the 81 fixture outputs, the repo's wasm.test.ts, SWC's runtime helper modules and stateright's UI script from the cargo registry) under 4 option sets; fixtures; %d modules with JSX embedded in try/catch, labelled blocks, switch, classes with fields/accessors/static blocks, object methods, generators, destructuring, default parameters, optional chaining, TS interfaces/enums/namespaces/generics; generated JSX-free modules; and EVERY output of the first phase is fed back as input (idempotence)" % (len(corpus), n),
+    return [], run, {"rule": "JSX-free corpus of %d real files on disk (the 81 fixture outputs, the repo's wasm.test.ts, SWC's runtime helper modules and stateright's UI script from the cargo registry) under 4 option sets; fixtures; %d modules with JSX embedded in try/catch, labelled blocks, switch, classes with fields/accessors/static blocks, object methods, generators, destructuring, default parameters, optional chaining, TS interfaces/enums/namespaces/generics; %d modules with resolveType on in which a parameter, inner function, inner const, class member, loop or catch binding, object method or another module's export is merely NAMED defineComponent (x 5 import situations x 3 typed setup functions); generated JSX-free modules; and EVERY output of the first phase is fed back as input (idempotence)" % (len(corpus), n, n_rt),
                      "histogram": dict(hist.most_common(30))}
 
 
@@ -883,6 +905,15 @@ CYCLIC = ["type T = T;", "type A = B; type B = A;", "interface I extends I { a: 
           "type T = { a: string } & T;", "type T = Array<T>[number];", "interface I { a: I['a'] }"]
 
 
+CYCLIC_T = ["type T = T;", "type T = B; type B = T;", "interface T extends T { a: 1 }", "interface T extends Q {} interface Q extends T {}", "type T = { a: T }['a'];",
+            "type T = T | string;", "type T = Partial<T>;", "type T = (T);", "type T = Pick<{a: 1}, T>;", "type T = T['x'];", "type T = { a: string } & T;",
+            "type T = Array<T>[number];", "interface T { a: T['a'] }", "type T = NonNullable<T>;", "type T = Exclude<T, 1>;", "type T = Extract<1, T>;", "type T = T[number];",
+            "type T = [T][0];", "type T = Omit<T, 'a'>;", "type T = Required<T>;", "type T = { a: 1 }[T];", "type T = B['x']; type B = T['y'];", "type T = B['x']; type B = { x: T };",
+            "interface T extends B {} type B = T;"]
+TYPE_POSITIONS = ["@", "{ x: @ }", "@['x']", "@[number]", "{ a: 1 }[@]", "{ a: 1; b: 2 }[@ | 'a']", "Pick<{ a: 1 }, @>", "Omit<{ a: 1 }, @>", "Pick<@, 'a'>", "Partial<@>", "Required<@>",
+                  "NonNullable<@>", "Exclude<@, null>", "Extract<string, @>", "@ | string", "@ & { a: 1 }", "(@)", "@[]", "[@][0]", "Array<@>[number]", "{ x: @ }['x']"]
+
+
 def malformed_stream(tier, r):
     out = []
     for ci, com in enumerate(ODD_COMMENTS):
@@ -905,6 +936,14 @@ def malformed_stream(tier, r):
         for use in ["(props: T) => {}", "(props: A) => {}", "(props: I) => {}", "(props: P) => {}", "(props: { x: T }) => {}", "(_, ctx: SetupContext<T>) => {}", "(props: K) => {}"]:
             src = "import { defineComponent } from 'vue';\nimport type { SetupContext } from 'vue';\n%s\ndefineComponent(%s);\n" % (cyc, use)
             out.append({"src": src, "tsx": True, "opts": {"resolveType": True}})
+    # every cyclic declaration of T x every position a resolver recurses through (whole props type, member type, emits)
+    for cyc in CYCLIC_T:
+        for w in TYPE_POSITIONS:
+            ty = w.replace("@", "T")
+            for use in ["(props: %s) => {}" % ty, "(props: { m: %s; n?: string }) => {}" % ty, "(props: { a: string } = { m: 1 }, ctx: SetupContext<%s>) => {}" % ty,
+                        "(_, { emit }: SetupContext<(e: %s) => void>) => {}" % ty, "(_, ctx: SetupContext<{ (e: %s): void; (e: 'ok'): void }>) => {}" % ty]:
+                src = "import { defineComponent, type SetupContext } from 'vue';\n%s\ndefineComponent(%s);\n" % (cyc, use)
+                out.append({"src": src, "tsx": True, "opts": {"resolveType": True}})
     return out
 
 
@@ -956,7 +995,7 @@ def c08_cases(tier, seed):
     run += mods
     for c in run:
         c["twice"] = True
-    return [], run, {"rule": "fixtures + the malformed-usage stream (directive values of every attribute-value kind, holes/spreads/empty arrays, 13 self- or mutually-referential alias/interface declarations x 7 uses, nesting depth up to 200, ...) + %d generated modules; every case is run TWICE in one process (fresh SWC globals) and once more in a fresh process with the cases in reverse order; outputs, diagnostics and outcomes must be byte-identical; a panic or a process abort (stack overflow) is a violation" % len(mods),
+    return [], run, {"rule": "fixtures + the malformed-usage stream (directive values of every attribute-value kind, holes/spreads/empty arrays, 13 self- or mutually-referential alias/interface declarations x 7 uses, 24 cyclic declarations x 21 type positions (indexed object/key, Pick/Omit keys and object, utility wrappers, unions, intersections, arrays, tuples) x 5 uses (whole props type, member type, SetupContext argument, event parameter of a function type and of a call signature), nesting depth up to 200, ...) + %d generated modules; every case is run TWICE in one process (fresh SWC globals) and once more in a fresh process with the cases in reverse order; outputs, diagnostics and outcomes must be byte-identical; a panic or a process abort (stack overflow) is a violation" % len(mods),
                      "histogram": dict(hist.most_common(30))}
 
 
@@ -1050,6 +1089,9 @@ C10_STMTS = ["const s = <Comp>{val}</Comp>;", "const s = <Comp>{f()}</Comp>;", "
              "const s = <Comp on={{click: fn1}} v-model={val}>{val}</Comp>;", "function s() { return <Comp>{val}</Comp>; }", "const s = <Foo>{cls}</Foo>;"]
 
 
+C10_TAGS = ["div", "motion.div", "input", "Form.input", "Comp", "ui.Comp", "NS.Item", "Item", "my-el", "a.b.div", "select", "textarea", "ui.textarea", "Unk", "x.Unk"]
+
+
 def c10_cases(tier, seed):
     r = gen.Rng(seed)
     run, pairs = [], []
@@ -1073,6 +1115,23 @@ def c10_cases(tier, seed):
                     b = {"id": "ctx%d" % n, "src": gen.PRELUDE + pre + "\n" + stmt + "\n" + suf + "\n", "tsx": False, "opts": o}
                     run.append(b)
                     pairs.append({"id": "c10_%d" % n, "mode": "c10:%d:%d" % (npre, npre + k), "a": a["id"], "b": b["id"]})
+    # tags of different kinds that share a name or a last segment: each lowered alone vs. after / before each other
+    for ti, t2 in enumerate(C10_TAGS):
+        for shape in ["const s = <T v-model={val}>{x}{y}</T>;", "const s = <T class={cls}>{f()}</T>;"]:
+            o = {"customElementPatterns": ["^my-"], "optimize": bool(ti % 2)}
+            stmt = shape.replace("T", t2)
+            a = {"id": "tagalone%d" % n, "src": gen.PRELUDE + stmt + "\n", "tsx": False, "opts": o}
+            run.append(a)
+            for t1 in C10_TAGS:
+                if t1 == t2:
+                    continue
+                for before in (True, False):
+                    n += 1
+                    other = "const other = <%s>{x}{y}</%s>;" % (t1, t1)
+                    src = gen.PRELUDE + (other + "\n" + stmt if before else stmt + "\n" + other) + "\n"
+                    b = {"id": "tagctx%d" % n, "src": src, "tsx": False, "opts": o}
+                    run.append(b)
+                    pairs.append({"id": "c10tag_%d" % n, "mode": "c10:%d:%d" % (npre, npre + (1 if before else 0)), "a": a["id"], "b": b["id"]})
     # random: a generated statement alone vs. between generated distractor statements
     prof = dict(GENERAL_PROFILE); prof["n_stmts"] = [(1, 1)]; prof["p_distractor"] = 0
     for i in range(budget(tier, 500, 12000)):
@@ -1087,7 +1146,7 @@ def c10_cases(tier, seed):
         b = {"id": "rb%d" % i, "src": gen.PRELUDE + "\n".join(pre) + "\n" + stmt + "\n" + "\n".join(suf) + "\n", "tsx": False, "opts": o}
         run += [a, b]
         pairs.append({"id": "r%d" % i, "mode": "c10:%d:%d" % (npre, npre + len(pre)), "a": a["id"], "b": b["id"]})
-    return [], run, {"rule": "pair oracle on the real code: 12 JSX statements (sole identifier/call children, Fragment/_Fragment tags, fragments, spreads, v-slots, arrows, KeepAlive, transformOn + v-model, function bodies) transformed ALONE and between 20 prefixes x 2 suffixes (assignments to same-named variables, function/arrow bodies with other JSX needing temporaries, fragment uses, user imports of Fragment/createVNode/h from 'vue', directives, transformOn, loops, classes, shadowing parameters) + %d generated statements between random distractors; the lowered statement must be identical up to renaming of generated identifiers" % budget(tier, 500, 12000),
+    return [], run, {"rule": "pair oracle on the real code: 12 JSX statements (sole identifier/call children, Fragment/_Fragment tags, fragments, spreads, v-slots, arrows, KeepAlive, transformOn + v-model, function bodies) transformed ALONE and between 20 prefixes x 2 suffixes; 15 tags of different kinds sharing a name or last segment (div / motion.div / a.b.div, input / Form.input, Comp / ui.Comp, ...) x 2 shapes, each alone vs. before and after each other tag; (assignments to same-named variables, function/arrow bodies with other JSX needing temporaries, fragment uses, user imports of Fragment/createVNode/h from 'vue', directives, transformOn, loops, classes, shadowing parameters) + %d generated statements between random distractors; the lowered statement must be identical up to renaming of generated identifiers" % budget(tier, 500, 12000),
                      "pairs": pairs}
 
 
